@@ -1,0 +1,102 @@
+//go:build verif
+
+// Contracts for package checkgroup (comment-only; build tag verif).
+
+package checkgroup
+
+// ---- the Result invariant (C03): an answer that carries an error never says allowed.
+// It is the channel invariant of every chan Result (senders prove it, receivers
+// assume it) and the field invariant of concurrentCheckgroup.result.
+
+//@ spec resinv(r Result) bool = r.Err != nil ==> r.Membership != IsMember
+//@ chaninv checkgroup.Result: msg.Err != nil ==> msg.Membership != checkgroup.IsMember
+//@ fieldinv checkgroup.concurrentCheckgroup.result: val.Err != nil ==> val.Membership != checkgroup.IsMember
+
+// ---- the CheckFunc protocol (C15): every CheckFunc sends exactly one result on
+// resultCh on every path, and receives nothing from it.
+
+//@ func functype::func(context.Context, chan<- checkgroup.Result)
+//@   opt sends-once arg1
+//@   requires arg0 != nil && arg1 != nil
+//@   modifies chanstate(arg1)
+//@   ensures[C15] send-once: sent(arg1) == old(sent(arg1)) + 1 && recvd(arg1) == old(recvd(arg1))
+//@   ensures[C03] sent-inv: lastsent(arg1).Err != nil ==> lastsent(arg1).Membership != checkgroup.IsMember
+
+//@ func ErrorFunc$1
+//@   props C03 C15
+//@   like functype::func(context.Context, chan<- checkgroup.Result)
+
+//@ func IsMemberFunc
+//@   props C03 C15
+//@   like functype::func(context.Context, chan<- checkgroup.Result)
+//@   ensures lastsent(resultCh).Membership == IsMember && lastsent(resultCh).Err == nil
+
+//@ func NotMemberFunc
+//@   props C03 C15
+//@   like functype::func(context.Context, chan<- checkgroup.Result)
+//@   ensures lastsent(resultCh).Membership == NotMember && lastsent(resultCh).Err == nil
+
+//@ func UnknownMemberFunc
+//@   props C02 C03 C15
+//@   like functype::func(context.Context, chan<- checkgroup.Result)
+//@   ensures[C02] unknown: lastsent(resultCh).Membership == MembershipUnknown && lastsent(resultCh).Err == nil
+
+//@ func WithEdge$1
+//@   props C03 C15
+//@   opt abandon-props C15
+//@   like functype::func(context.Context, chan<- checkgroup.Result)
+//@   requires f != nil
+
+// ---- Checkgroup interface (ASSUMED: the concurrent consumer is outside sequential
+// contracts; what can be proved of it locally is proved below).
+// gerr(g): an error check has been added; gmem(g): a check that may answer
+// IsMember has been added.
+
+//@ ghostfield gerr bool
+//@ ghostfield gmem bool
+
+//@ func New
+//@   trusted
+//@   ensures result != nil && !gerr(result) && !gmem(result)
+
+//@ func Checkgroup.Add
+//@   trusted
+//@   modifies gerr(recv), gmem(recv)
+//@   ensures gerr(recv) == (old(gerr(recv)) || closureof(check, ErrorFunc$1))
+//@   ensures gmem(recv) == (old(gmem(recv)) || !(closureof(check, ErrorFunc$1) || closureof(check, NotMemberFunc) || closureof(check, UnknownMemberFunc)))
+
+//@ func Checkgroup.SetIsMember
+//@   trusted
+//@   modifies gmem(recv)
+//@   ensures gmem(recv)
+
+//@ func Checkgroup.Done
+//@   trusted
+//@   pure
+
+//@ func Checkgroup.Result
+//@   trusted
+//@   pure
+//@   ensures result.Err != nil ==> result.Membership != IsMember
+//@   ensures gerr(recv) && !gmem(recv) ==> result.Err != nil
+//@   ensures !gmem(recv) ==> result.Membership != IsMember
+
+//@ func Checkgroup.CheckFunc
+//@   trusted
+//@   pure
+//@   ensures result != nil
+
+// ---- what is proved of the concurrent implementation
+
+//@ func (*concurrentCheckgroup).CheckFunc$1
+//@   props C03 C15
+//@   like functype::func(context.Context, chan<- checkgroup.Result)
+//@   requires g != nil && ctx != nil && g.doneCh != nil && g.finalizeCh != nil && g.cancel != nil
+
+//@ func receiveRemaining
+//@   props C15
+//@   requires ch != nil
+//@   modifies chanstate(ch)
+//@   ensures remaining >= 0 ==> recvd(ch) == old(recvd(ch)) + remaining
+//@   loop 1 invariant 0 <= i && (remaining >= 0 ==> i <= remaining) && recvd(ch) == old(recvd(ch)) + i
+//@   loop 1 decreases remaining - i
